@@ -162,6 +162,11 @@ RunCtl ctl_from_plan(Plan const& p)
     c.rorder = p.rorder;
     c.genmode = p.genmode;
     c.lat_n = p.ln;
+    // unusual but legal user code, decided by bits of the integrand seed: a nesting integrand (1/8 of
+    // the plans), a user callback that keeps its state inside the functor (1/2 of the plans)
+    c.nested = (mix2(p.fseed, 60001) % 8) == 0 && p.scn != "lattice";
+    c.user_stateful = (mix2(p.fseed, 60002) & 1) != 0;
+    c.base_typed = (mix2(p.fseed, 60003) & 1) != 0;
 
     for (auto const& f : p.faults)
     {
